@@ -586,3 +586,55 @@ Definition skeleton (c : cfg) : prog := skeleton_v mask_cast_now c.
    float64 leverage scores *)
 Definition float_out (o : string * expr) : bool :=
   match snd o with Leaf (LConst _) => false | _ => true end.
+
+(* ------------------------------------------------------------------ extracted programs
+   harness/props/C18.py translates the Python source of every TensorLy function (ast) into a `prog` of this language on every
+   run (allocation calls with / without **context become Into / bare leaves, NumPy scalar casts become constants, arithmetic
+   becomes promotion, in-place writes become Into, alternatives of an `if` are joined by promotion, the main iteration loop
+   becomes p_body, other loops are unrolled twice, calls of other library functions are summarised as the promotion of their
+   array arguments).  Such programs contain index / boolean values, so they are checked with a tolerant variant of prog_ok:
+   a statement whose expression is not in the precision class only makes its variable unknown.  Variable sets are positional
+   bit lists (the programs have hundreds of variables). *)
+Fixpoint getb (l : list bool) (x : nat) : bool :=
+  match l, x with [], _ => false | b :: _, 0 => b | _ :: r, S k => getb r k end.
+Fixpoint setb (l : list bool) (x : nat) (v : bool) : list bool :=
+  match x, l with
+  | 0, [] => [v] | 0, _ :: r => v :: r
+  | S k, [] => false :: setb [] k v | S k, b :: r => b :: setb r k v
+  end.
+Fixpoint subb (a b : list bool) : bool :=
+  match a with [] => true | x :: r => implb x (getb b 0) && subb r (tl b) end.
+Fixpoint ok_expr2 (en : env) (D : list bool) (e : expr) : bool :=
+  match e with
+  | Leaf l => inP (tau en) (leaf_dt en l)
+  | Var x => getb D x
+  | Op a b | Div a b => ok_expr2 en D a && ok_expr2 en D b
+  | ToFloat a | RealOf a => ok_expr2 en D a
+  | Into tg _ => ok_expr2 en D tg
+  end.
+Fixpoint strong_expr2 (en : env) (S : list bool) (e : expr) : bool :=
+  match e with
+  | Leaf l => strongP (tau en) (leaf_dt en l)
+  | Var x => getb S x
+  | Op a b | Div a b => strong_expr2 en S a || strong_expr2 en S b
+  | ToFloat a | RealOf a => strong_expr2 en S a
+  | Into tg _ => strong_expr2 en S tg
+  end.
+(* a statement whose expression is not in the class only makes its variable unknown; nothing is claimed about it afterwards *)
+Fixpoint ok_block2 (en : env) (D S : list bool) (b : list stmt) : list bool * list bool :=
+  match b with
+  | [] => (D, S)
+  | (x, e) :: r => let o := ok_expr2 en D e in
+                   ok_block2 en (setb D x o) (setb S x (o && strong_expr2 en S e)) r
+  end.
+Definition prog_ok2 (en : env) (p : prog) : bool :=
+  let '(D1, S1) := ok_block2 en [] [] (p_init p) in
+  let '(D2, S2) := ok_block2 en D1 S1 (p_body p) in
+  subb D1 D2 && subb S1 S2 && forallb (fun o => ok_expr2 en D1 (snd o) && strong_expr2 en S1 (snd o)) (p_outs p).
+
+
+(* the two levels at which an extracted function is certified: for every dtype of a caller-supplied mask / for a mask of the
+   data's dtype *)
+Definition mask_dts := [B; I64; F32; F64; C64; C128].
+Definition ext_ok_any (p : prog) : bool := forallb (fun t => forallb (fun m => prog_ok2 (mkenv t m) p) mask_dts) ctxs.
+Definition ext_ok_same (p : prog) : bool := forallb (fun t => prog_ok2 (mkenv t t) p) ctxs.
